@@ -684,3 +684,67 @@ Definition c17_body (toks : list (list N)) : list (list N) :=
     [[match st with BDone => 0 | BErr => 2 | _ => 1 end]; out]
   | _ => REJECT_TOK
   end.
+
+(* ---------------- C01 / C10 ---------------- *)
+From TT Require Import Model.TunnelGate.
+
+Definition c01_clients : list (list N * list N) :=
+  [([117; 49], [112; 49]); ([195; 188], [112; 195; 164; 32; 115; 115])].      (* u1:p1, "ü":"pä ss" *)
+Definition c01_snicreds : list N := [115; 110; 105; 99; 114; 101; 100; 115].
+Definition c01_auth (cfg : N) : option authenticator :=
+  if cfg =? 0 then None
+  else if cfg =? 1 then Some (fun s => match s with SBasic t => authenticate c01_clients t | SSni _ => false end)
+  else Some (fun s => match s with SBasic t => authenticate c01_clients t | SSni c => list_eqb N.eqb c c01_snicreds end).
+
+Fixpoint take_until_slash (b : list N) : list N :=
+  match b with [] => [] | c :: r => if c =? 47 then [] else c :: take_until_slash r end.
+Definition HTTP_SCHEME : list N := [104; 116; 116; 112; 58; 47; 47].
+
+(* authority of the request target; outcome class of the destination:
+   0 canary (connects), 1 refused port, 2 name that does not resolve, 3 private/loopback literal with private connections disallowed *)
+Definition c01_authority (kind : N) (target : list N) : option (list N) :=
+  if kind =? 1 then Some target
+  else match strip_prefix HTTP_SCHEME target with Some r => Some (take_until_slash r) | None => None end.
+
+Definition c01_has_port (a : list N) : bool :=
+  existsb (fun c => c =? 58) a || list_eqb N.eqb a [64; 65] || list_eqb N.eqb a [64; 66].
+
+Fixpoint c01_reqs (auth : option authenticator) (p : policy) (toks : list (list N)) (fuel : nat) : list (list N) :=
+  match fuel with
+  | O => []
+  | S f =>
+    match toks with
+    | [kind; oc] :: target :: header :: payload :: rest =>
+      let raw := match header with [] => None | [256] => Some [] | h => Some h end in
+      let au := c01_authority kind target in
+      let hp := match au with Some a => c01_has_port a | None => false end in
+      let o := if oc =? 0 then COk else if oc =? 1 then CIo else if oc =? 2 then CIo
+               else if oc =? 3 then CNonRoutable else if oc =? 4 then CLoopback
+               else if oc =? 5 then CTimeout else CUnreachable in
+      let a := handle auth p raw (kind =? 1) au hp o in
+      let route := dispatch (kind =? 1) au in
+      let tcp := match route with RConnect => if a_egress a && (a_status a =? 200) then 1 else 0 | _ => 0 end in
+      let udp := match route with RUdp => if a_egress a && negb (is_nil payload) then 1 else 0 | _ => 0 end in
+      [a_status a; if a_challenge a then 1 else 0; a_warning a; tcp; udp; if a_names_host a then 1 else 0]
+        :: c01_reqs auth p rest f
+    | _ => []
+    end
+  end.
+
+Fixpoint c01_dropped (toks : list (list N)) (fuel : nat) : list (list N) :=
+  match fuel with
+  | O => []
+  | S f => match toks with _ :: _ :: _ :: _ :: rest => [0; 0; 0; 0; 0; 0] :: c01_dropped rest f | _ => [] end
+  end.
+
+Definition c01_session (toks : list (list N)) : list (list N) :=
+  match toks with
+  | [acfg; _; sni; _] :: rest =>
+    let auth := c01_auth acfg in
+    let creds := if sni =? 0 then None else if sni =? 1 then Some c01_snicreds else Some [98; 97; 100] in
+    match connection_policy auth creds with
+    | None => c01_dropped rest (length rest)
+    | Some p => c01_reqs auth p rest (length rest)
+    end
+  | _ => REJECT_TOK
+  end.
